@@ -791,6 +791,129 @@ def _inline_one(tree, sc, name):
 
 
 # --------------------------------------------------------------------------
+# loops over a literal tuple, written where the reference repeats a statement
+# --------------------------------------------------------------------------
+_PURE = (ast.Name, ast.Constant, ast.Compare, ast.BinOp, ast.UnaryOp,
+         ast.BoolOp, ast.Load, ast.operator, ast.unaryop, ast.cmpop,
+         ast.boolop)
+
+
+def _pure_names(e):
+    """names of an expression built from names, constants and operators
+    only (None otherwise): safe to evaluate again, at another place"""
+    if not all(isinstance(n, _PURE) for n in ast.walk(e)):
+        return None
+    return {n.id for n in ast.walk(e) if isinstance(n, ast.Name)}
+
+
+def _unroll_one(fn, loop):
+    if loop.orelse or not isinstance(loop.iter, (ast.Tuple, ast.List)) or \
+            not 1 <= len(loop.iter.elts) <= 8:
+        return None
+    tg = loop.target
+    if isinstance(tg, ast.Name):
+        names = [tg.id]
+    elif isinstance(tg, ast.Tuple) and all(
+            isinstance(e, ast.Name) for e in tg.elts):
+        names = [e.id for e in tg.elts]
+    else:
+        return None
+    for st in loop.body:
+        for n in ast.walk(st):
+            if isinstance(n, (ast.Break, ast.Continue, ast.FunctionDef,
+                              ast.Lambda, ast.Return, ast.Yield)):
+                return None
+    stored = {n.id for st in loop.body for n in ast.walk(st)
+              if isinstance(n, ast.Name) and isinstance(
+                  n.ctx, (ast.Store, ast.Del))}
+    if stored & set(names):
+        return None
+    rows = []
+    for el in loop.iter.elts:
+        if isinstance(tg, ast.Name):
+            vals = [el]
+        elif isinstance(el, (ast.Tuple, ast.List)) and len(el.elts) == len(
+                names):
+            vals = list(el.elts)
+        else:
+            return None
+        for v in vals:
+            used = _pure_names(v)
+            if used is None or used & (stored | set(names)):
+                return None
+        rows.append(dict(zip(names, vals)))
+    # the loop variables are dead after the loop: every other read of them
+    # sits in a loop that binds them again
+    inside = {id(n) for st in loop.body for n in ast.walk(st)}
+
+    def rebinding_loops(node, bound, out):
+        for c in ast.iter_child_nodes(node):
+            b = bound
+            if isinstance(c, (ast.For, ast.comprehension)):
+                b = bound | {n.id for n in ast.walk(c.target)
+                             if isinstance(n, ast.Name)}
+            if isinstance(c, ast.Name) and isinstance(c.ctx, ast.Load) \
+                    and c.id in names and id(c) not in inside and \
+                    c.id not in bound:
+                out.append(c)
+            rebinding_loops(c, b, out)
+    leaks = []
+    rebinding_loops(fn, frozenset(), leaks)
+    if leaks:
+        return None
+    out = []
+    for env in rows:
+        for st in loop.body:
+            new = copy.deepcopy(st)
+            mod = ast.Module(body=[new], type_ignores=[])
+            _Subst({k: v for k, v in env.items()}).visit(mod)
+            out.extend(_fix(x, loop) for x in mod.body)
+    return out
+
+
+def unroll_literal_loops(ref_tree, cur_tree):
+    """In functions that differ from the reference, a `for` over a literal
+    tuple of pure expressions that the reference function does not have is
+    replaced by its iterations.  Returns {qualname: loops unrolled}."""
+    rs, cs = scopes(ref_tree), scopes(cur_tree)
+    done = {}
+    for sc, (body, cf) in cs.items():
+        rf = rs.get(sc, (None, {}))[1]
+        for name, fn in cf.items():
+            ref = rf.get(name)
+            if ref is None or ast.dump(ref) == ast.dump(fn):
+                continue
+            have = {ast.dump(n) for n in ast.walk(ref)
+                    if isinstance(n, ast.For)}
+            changed = True
+            count = 0
+            while changed and count < 12:
+                changed = False
+                for parent in ast.walk(fn):
+                    for f in ('body', 'orelse', 'finalbody'):
+                        blk = getattr(parent, f, None)
+                        if not (isinstance(blk, list) and blk and isinstance(
+                                blk[0], ast.stmt)):
+                            continue
+                        for k, st in enumerate(blk):
+                            if isinstance(st, ast.For) and ast.dump(
+                                    st) not in have:
+                                rep = _unroll_one(fn, st)
+                                if rep is not None:
+                                    blk[k:k + 1] = rep or [ast.Pass()]
+                                    changed = True
+                                    count += 1
+                                    break
+                        if changed:
+                            break
+                    if changed:
+                        break
+            if count:
+                done['%s.%s' % (sc, name) if sc else name] = count
+    return done
+
+
+# --------------------------------------------------------------------------
 def normalise(ref_tree, cur_tree):
     """In place on cur_tree (and strips ref_tree).  Returns a record."""
     rec = {}
@@ -808,5 +931,8 @@ def normalise(ref_tree, cur_tree):
     inl = inline_new_helpers(ref_tree, cur_tree, ren)
     if inl:
         rec['inlined_helpers'] = inl
+    unr = unroll_literal_loops(ref_tree, cur_tree)
+    if unr:
+        rec['unrolled_literal_loops'] = unr
     ast.fix_missing_locations(cur_tree)
     return rec
